@@ -7,6 +7,7 @@ import Driver.Regex
 import Driver.Str
 import Driver.NumDB
 import Driver.Standards
+import Driver.GS1
 /-!
 Native model driver: one request per line on stdin (`<module>:<function>\t<json args>`),
 one response per line on stdout.  Hand-written handlers for the spec-level models are tried first.
@@ -23,7 +24,8 @@ def handWritten (target : String) (args : List Json) : Option String :=
   (if target.startsWith "re." then some (Driver.Regex.handle target args) else none).orElse fun _ =>
   (Driver.Str.handle target args).orElse fun _ =>
   (Driver.NumDB.handle target args).orElse fun _ =>
-  (Driver.Standards.handle target args)
+  (Driver.Standards.handle target args).orElse fun _ =>
+  (Driver.GS1.handle target args)
 
 def handleLine (line : String) : String :=
   match Py.Wire.parseLine line with
